@@ -129,3 +129,19 @@ package resp
 //@   assert before ReadTrailer: rbBody == 1 && rbChunked
 //@   assert before SetContentLength: rbBody == 1
 //@   top-ensures rbSkip ==> rbBody == 0
+
+// Closing a streamed response: the body stream is released (drained) exactly once, before the close callback
+// decides about the connection, and the wrapper is cleared afterwards (typestate).
+//@ ghost var csStep int
+//@ func clientRespStream.Close(c) err
+//@   props C11
+//@   abstract
+//@   noinline
+//@   modifies csStep
+//@   ghostset-at-entry csStep = 0
+//@   assert before ReleaseBodyStream: csStep == 0
+//@   ghostset after ReleaseBodyStream: csStep = 1
+//@   assert before reset: csStep == 1
+//@   ghostset after reset: csStep = 2
+//@   top-ensures csStep == 2
+
